@@ -6,7 +6,9 @@ import (
 	"crypto/elliptic"
 	"crypto/sha256"
 	"crypto/sha512"
+	"fmt"
 	"math/big"
+	"strings"
 
 	i2pdsa "github.com/go-i2p/crypto/dsa"
 )
@@ -666,10 +668,44 @@ func genSteeredLengths(g *G) {
 	}
 }
 
+// genRIOptions: RouterInfos whose options carry the keys the query methods interpret (router.version, caps,
+// netId): well-formed, boundary and malformed values, so that GoodVersion / RouterVersion / RouterCapabilities /
+// UnCongested / Reachable / SharedBandwidthCategory run on real option text (C04, C18 and C20 call them).
+func genRIOptions(g *G) {
+	r := g.R
+	versions := []string{"0.9.67", "0.9.58", "0.9.57", "0.9.99", "0.9.100", "0.9.0", "0.9", "0.9.67.1", "1.0.0", "0.8.99", "0.10.1",
+		"0.9.x", "", "0.9.-1", "99999999999999999999.0.0", "0.9.99999999999999999999", "0.9.67-rc", " 0.9.67", "0.9.67\n", "0.\x009.67",
+		"..", "...", "0..67", "a.b.c", "０.９.６７", "+0.+9.+67", "0x0.9.67"}
+	caps := []string{"L", "XfR", "OfU", "D", "E", "G", "", "KLMNOPX", "PRU", "RD", "UE", "XG", strings.Repeat("R", 255), "r", "\x00"}
+	g.in("ri-option-text")
+	emit := func(pairs [][2][]byte) {
+		id := g.newIdentity(7, r.pick(4, 0), false, nil)
+		rb := cat(id.bytes, u64(uint64(g.ts())*1000), []byte{1}, g.encRouterAddress(), []byte{0}, encMapping(pairs))
+		g.emit("readRI", hx(cat(rb, id.sg.sign(rb))))
+	}
+	for _, v := range versions {
+		emit([][2][]byte{{[]byte("caps"), []byte(caps[r.intn(len(caps))])}, {[]byte("netId"), []byte("2")}, {[]byte("router.version"), []byte(v)}})
+	}
+	for _, c := range caps {
+		emit([][2][]byte{{[]byte("caps"), []byte(c)}, {[]byte("router.version"), []byte(versions[r.intn(4)])}})
+	}
+	emit([][2][]byte{{[]byte("router.version"), []byte("0.9.67")}})
+	emit([][2][]byte{{[]byte("caps"), []byte("XfR")}})
+	emit(nil)
+	for i := 0; i < g.n(40, 2000); i++ {
+		v := versions[r.intn(len(versions))]
+		if r.coin(0.5) {
+			v = fmt.Sprintf("%d.%d.%d", r.pick(0, 0, 0, 1), r.pick(9, 9, 9, 8, 10), r.rng(0, 120))
+		}
+		emit([][2][]byte{{[]byte("caps"), []byte(caps[r.intn(len(caps))])}, {[]byte("netId"), []byte(itoa(r.rng(0, 3)))}, {[]byte("router.version"), []byte(v)}})
+	}
+}
+
 func init() {
 	suites["STRUCT"] = func(g *G) {
 		genSmallStructs(g, g.n(300, 8000))
 		genSignedStructs(g, g.n(100, 1500))
 		genSteeredLengths(g)
+		genRIOptions(g)
 	}
 }
